@@ -65,6 +65,11 @@ class Defs:
                 outs.append(self.rvalue(d[3]["rv"], depth + 1, seen + (l,), d[1]))
             else:
                 t = d[2]
+                lit = self._vec_literal(t, depth, seen + (l,)) if (callee_name(t) or "").endswith("box_assume_init_into_vec_unsafe") else None
+                if lit is not None:
+                    # vec![a, b, ..]: the elements are written through the box before it is turned into the vector
+                    outs.append(("call", "vec!", [lit], d[1]))
+                    continue
                 outs.append(("call", callee_name(t),
                              [self.operand(a, depth + 1, seen + (l,)) for a in t["args"]], d[1]))
         if 1 <= l <= self.arg_count:
@@ -72,6 +77,35 @@ class Defs:
         if len(outs) == 1:
             return outs[0]
         return ("multi", outs)
+
+    def _vec_literal(self, t, depth, seen):
+        """array aggregate stored through the uninitialised box that `vec![..]` turns into the vector, or None"""
+        a0 = t["args"][0].get("place") if t["args"] else None
+        if a0 is None:
+            return None
+        boxes = {a0["l"]}
+        for _ in range(3):
+            for b_ in list(boxes):
+                for d in self.defs.get(b_, []):
+                    if d[0] == "assign" and d[3]["rv"]["k"] == "use" and d[3]["rv"]["op"].get("place"):
+                        boxes.add(d[3]["rv"]["op"]["place"]["l"])
+        for l_, ws in self.partial.items():
+            for w in ws:
+                if w[0] != "assign" or w[3]["rv"]["k"] != "aggregate" or w[3]["rv"].get("agg") != "array":
+                    continue
+                if not (w[3]["place"]["proj"] and w[3]["place"]["proj"][0]["k"] == "deref"):
+                    continue
+                # the pointer written through is derived from one of the boxes
+                src = set()
+                for d in self.defs.get(l_, []):
+                    if d[0] == "assign":
+                        rv = d[3]["rv"]
+                        op = rv.get("a") or rv.get("op")
+                        if isinstance(op, dict) and op.get("place"):
+                            src.add(op["place"]["l"])
+                if src & boxes:
+                    return self.rvalue(w[3]["rv"], depth + 1, seen, w[1])
+        return None
 
     def place(self, pl, depth=0, seen=()):
         cur = self.local(pl["l"], depth, seen)
